@@ -74,25 +74,26 @@ Section GSP.
 Variable ord : list nat -> list nat -> list nat.
 
 (* _mult_sublists(tensor_list, overall_inds, U, inds); blocks = zip(tensor_list, overall_inds) *)
-Definition mult_sublists (blocks : list block) (U : fcirc) (inds : list nat) : option (list block) :=
-  let hit := filter (fun b => inter_nonempty (snd b) inds) blocks in
-  let keep := filter (fun b => negb (inter_nonempty (snd b) inds)) blocks in
-  match hit with
-  | [] => None                                             (* tensor([]) raises *)
-  | _ =>
-    let inds_sub := flat_map snd hit in
-    let U_sub := ftensor 0 (with_arity hit) in
-    let revised := ord inds_sub inds in
-    let N := length revised in
-    let ind_map := combine revised (argsort revised) in
-    match map_opt (fun i => dict_get i ind_map) inds_sub, map_opt (fun i => dict_get i ind_map) inds with
-    | Some t1, Some t2 =>
-      match fexpand (length inds_sub) U_sub N t1, fexpand (length inds) U N t2 with
-      | Some a, Some b => Some (keep ++ [(a ++ b, revised)])
-      | _, _ => None
-      end
+Definition hits (inds : list nat) (b : block) : bool := inter_nonempty (snd b) inds.
+(* the part after the partition loop: [hit] = intersecting blocks in list order, [keep] = the others *)
+Definition mult_merge (hit keep : list block) (U : fcirc) (inds : list nat) : option (list block) :=
+  let inds_sub := flat_map snd hit in
+  let U_sub := ftensor 0 (with_arity hit) in
+  let revised := ord inds_sub inds in
+  let N := length revised in
+  let ind_map := combine revised (argsort revised) in
+  match map_opt (fun i => dict_get i ind_map) inds_sub, map_opt (fun i => dict_get i ind_map) inds with
+  | Some t1, Some t2 =>
+    match fexpand (length inds_sub) U_sub N t1, fexpand (length inds) U N t2 with
+    | Some a, Some b => Some (keep ++ [(a ++ b, revised)])
     | _, _ => None
     end
+  | _, _ => None
+  end.
+Definition mult_sublists (blocks : list block) (U : fcirc) (inds : list nat) : option (list block) :=
+  match filter (hits inds) blocks with
+  | [] => None                                             (* tensor([]) raises *)
+  | _ => mult_merge (filter (hits inds) blocks) (filter (fun b => negb (hits inds b)) blocks) U inds
   end.
 
 (* _expand_overall(tensor_list, overall_inds) *)
